@@ -1744,6 +1744,293 @@ where
     }
 }
 
+/// Verification hooks: plain-data view of one subscription.
+#[cfg(rs_matter_verif)]
+#[derive(Debug, Clone, PartialEq, Eq)]
+pub struct VerifSub {
+    pub id: u32,
+    pub fab_idx: u8,
+    pub peer_node_id: u64,
+    pub min_int_secs: u16,
+    pub max_int_secs: u16,
+    pub reported_at: Instant,
+    pub retry_at: Instant,
+    pub fail_count: u8,
+    pub max_seen_attr_change_id: u64,
+    pub max_seen_event_number: u64,
+}
+
+/// Verification hooks: the timing decisions of one subscription of the table.
+#[cfg(rs_matter_verif)]
+#[derive(Debug, Clone, PartialEq, Eq)]
+pub struct VerifSubDecisions {
+    pub id: u32,
+    pub report_allowed_at: Instant,
+    pub report_due_at: Instant,
+    pub next_report_at: Instant,
+    pub is_reportable: bool,
+    pub is_expired: bool,
+}
+
+/// Verification hooks: plain-data view of the whole table.
+#[cfg(rs_matter_verif)]
+#[derive(Debug, Clone)]
+pub struct VerifSubsSnapshot<const N: usize> {
+    pub next_subscription_id: u32,
+    pub subscriptions_count: usize,
+    /// In table order.
+    pub subscriptions: heapless::Vec<VerifSub, N>,
+    pub next_change_id: u64,
+    /// `(endpoint, cluster, attr, change_id)` in table order.
+    pub changed_attrs: heapless::Vec<(EndptId, ClusterId, AttrId, u64), MAX_CHANGED_ATTRS>,
+    pub reporting: Option<VerifSub>,
+    pub reporting_cancelled: bool,
+}
+
+/// Verification hooks: plain-data view of a report context.
+#[cfg(rs_matter_verif)]
+#[derive(Debug, Clone)]
+pub struct VerifReportContext {
+    pub subscription: VerifSub,
+    pub next_max_seen_attr_change_id: u64,
+    pub next_max_seen_event_number: u64,
+    pub next_reported_at: Instant,
+    pub next_retry_at: Instant,
+    pub next_fail_count: u8,
+    pub keep: bool,
+}
+
+#[cfg(rs_matter_verif)]
+impl Subscription {
+    fn verif_view(&self) -> VerifSub {
+        VerifSub {
+            id: self.ids.id,
+            fab_idx: self.ids.fab_idx.get(),
+            peer_node_id: self.ids.peer_node_id,
+            min_int_secs: self.min_int_secs,
+            max_int_secs: self.max_int_secs,
+            reported_at: self.reported_at,
+            retry_at: self.retry_at,
+            fail_count: self.fail_count,
+            max_seen_attr_change_id: self.max_seen_attr_change_id,
+            max_seen_event_number: self.max_seen_event_number,
+        }
+    }
+
+    /// `retry_backoff_secs` as is.
+    pub fn verif_retry_backoff_secs(fail_count: u8, max_int_secs: u16) -> u16 {
+        Self::retry_backoff_secs(fail_count, max_int_secs)
+    }
+}
+
+/// Verification hooks: the crate-private table API, unchanged, with the explicit `now`
+/// the private functions already take.
+#[cfg(rs_matter_verif)]
+impl<const N: usize> Subscriptions<N> {
+    pub fn verif_notify_attr_changed(&self, endpoint_id: EndptId, cluster_id: ClusterId, attr_id: AttrId) {
+        self.notify_attr_changed(endpoint_id, cluster_id, attr_id)
+    }
+
+    pub fn verif_notify_cluster_changed(&self, endpoint_id: EndptId, cluster_id: ClusterId) {
+        self.notify_cluster_changed(endpoint_id, cluster_id)
+    }
+
+    pub fn verif_notify_endpoint_changed(&self, endpoint_id: EndptId) {
+        self.notify_endpoint_changed(endpoint_id)
+    }
+
+    pub fn verif_notify_all_changed(&self) {
+        self.notify_all_changed()
+    }
+
+    #[allow(clippy::too_many_arguments)]
+    pub fn verif_add<'a, 's, B>(
+        &'s self,
+        now: Instant,
+        fabric_idx: NonZeroU8,
+        peer_node_id: u64,
+        min_int_secs: u16,
+        max_int_secs: u16,
+        event_numbers_watermark: EventNumber,
+        buffer: B::Buffer<'a>,
+        buffers: &'s SubscriptionsBuffers<'a, B, N>,
+    ) -> Option<ReportContext<'a, 's, B, N>>
+    where
+        B: Buffers<IMBuffer> + 'a,
+    {
+        self.add(
+            now,
+            fabric_idx,
+            peer_node_id,
+            min_int_secs,
+            max_int_secs,
+            event_numbers_watermark,
+            buffer,
+            buffers,
+        )
+    }
+
+    pub fn verif_report<'a, 's, B>(
+        &'s self,
+        now: Instant,
+        event_numbers_watermark: EventNumber,
+        buffers: &'s SubscriptionsBuffers<'a, B, N>,
+    ) -> Option<ReportContext<'a, 's, B, N>>
+    where
+        B: Buffers<IMBuffer> + 'a,
+    {
+        self.report(now, event_numbers_watermark, buffers)
+    }
+
+    /// `true` iff `report` may be called (its `debug_assert`s on the in-flight slot hold).
+    pub fn verif_report_slot_free(&self) -> bool {
+        self.state.lock(|state| {
+            let state = state.borrow();
+            state.reporting.is_none() && state.reporting_cancelled.is_none()
+        })
+    }
+
+    pub fn verif_remove<B, F>(&self, buffers: &SubscriptionsBuffers<'_, B, N>, mut f: F) -> bool
+    where
+        B: Buffers<IMBuffer>,
+        F: FnMut(&VerifSub, &Subscription) -> bool,
+    {
+        self.remove(buffers, |sub| f(&sub.verif_view(), sub).then_some("verif"))
+    }
+
+    pub fn verif_next_report_at<'a, B>(
+        &self,
+        event_numbers_watermark: EventNumber,
+        buffers: &SubscriptionsBuffers<'a, B, N>,
+    ) -> Instant
+    where
+        B: Buffers<IMBuffer> + 'a,
+    {
+        self.next_report_at(event_numbers_watermark, buffers)
+    }
+
+    pub fn verif_purge_reported_changes(&self) {
+        self.purge_reported_changes()
+    }
+
+    #[cfg(feature = "persistent-subscriptions")]
+    pub fn verif_persist_all<'a, B, S>(
+        &self,
+        buffers: &SubscriptionsBuffers<'a, B, N>,
+        kv: S,
+        buf: &mut [u8],
+    ) -> Result<(), Error>
+    where
+        B: Buffers<IMBuffer> + 'a,
+        S: KvBlobStore,
+    {
+        self.persist_all(buffers, kv, buf)
+    }
+
+    #[cfg(feature = "persistent-subscriptions")]
+    pub fn verif_load_persist<'a, 's, B, S>(
+        &'s self,
+        pool: &'a B,
+        buffers: &'s SubscriptionsBuffers<'a, B, N>,
+        kv: S,
+        buf: &mut [u8],
+        now: Instant,
+        event_numbers_watermark: EventNumber,
+    ) -> Result<(), Error>
+    where
+        'a: 's,
+        B: Buffers<IMBuffer> + 'a,
+        S: KvBlobStore,
+    {
+        self.load_persist(pool, buffers, kv, buf, now, event_numbers_watermark)
+    }
+
+    /// The RX buffers of the table, in table order (they carry the subscribe request).
+    pub fn verif_buffers<'a, B, F>(&self, buffers: &SubscriptionsBuffers<'a, B, N>, mut f: F)
+    where
+        B: Buffers<IMBuffer> + 'a,
+        F: FnMut(usize, &[u8]),
+    {
+        self.with(buffers, |_, buffers| {
+            for (index, buffer) in buffers.iter().enumerate() {
+                f(index, buffer.as_ref());
+            }
+        })
+    }
+
+    pub fn verif_snapshot(&self) -> VerifSubsSnapshot<N> {
+        self.state.lock(|state| {
+            let state = state.borrow();
+
+            VerifSubsSnapshot {
+                next_subscription_id: state.next_subscription_id,
+                subscriptions_count: state.subscriptions_count,
+                subscriptions: state.subscriptions.iter().map(|s| s.verif_view()).collect(),
+                next_change_id: state.changed_attrs.next_change_id,
+                changed_attrs: state
+                    .changed_attrs
+                    .entries
+                    .iter()
+                    .map(|e| (e.endpoint, e.cluster, e.attr, e.change_id))
+                    .collect(),
+                reporting: state.reporting.as_ref().map(|s| s.verif_view()),
+                reporting_cancelled: state.reporting_cancelled.is_some(),
+            }
+        })
+    }
+
+    /// The timing decisions for every subscription of the table, in table order.
+    pub fn verif_decisions(
+        &self,
+        now: Instant,
+        event_numbers_watermark: EventNumber,
+    ) -> heapless::Vec<VerifSubDecisions, N> {
+        self.state.lock(|state| {
+            let state = state.borrow();
+
+            state
+                .subscriptions
+                .iter()
+                .map(|s| VerifSubDecisions {
+                    id: s.ids.id,
+                    report_allowed_at: s.report_allowed_at(),
+                    report_due_at: s.report_due_at(),
+                    next_report_at: s.next_report_at(
+                        &[],
+                        &state.changed_attrs,
+                        event_numbers_watermark,
+                    ),
+                    is_reportable: s.is_reportable(
+                        now,
+                        &[],
+                        &state.changed_attrs,
+                        event_numbers_watermark,
+                    ),
+                    is_expired: s.is_expired(now),
+                })
+                .collect()
+        })
+    }
+}
+
+#[cfg(rs_matter_verif)]
+impl<'a, 's, B, const N: usize> ReportContext<'a, 's, B, N>
+where
+    B: Buffers<IMBuffer> + 'a,
+{
+    pub fn verif_snapshot(&self) -> VerifReportContext {
+        VerifReportContext {
+            subscription: self.subscription().verif_view(),
+            next_max_seen_attr_change_id: self.next_max_seen_attr_change_id,
+            next_max_seen_event_number: self.next_max_seen_event_number,
+            next_reported_at: self.next_reported_at,
+            next_retry_at: self.next_retry_at,
+            next_fail_count: self.next_fail_count,
+            keep: self.keep,
+        }
+    }
+}
+
 #[cfg(test)]
 mod tests {
     use crate::utils::storage::pooled::PooledBuffers;
